@@ -43,6 +43,10 @@ Definition random_ints (lo hi : Z) : gp :=
                 (between lo hi origin MAXS 10 GStop))) in
   if (hi <? lo)%Z then GStop else GFun (GLoop body body).
 
+(* one-sided calls: the bound that is not given is derived from the given one *)
+Definition ints_from (lo : Z) : gp := random_ints lo (Z.max MAXS (lo + MAXS)).
+Definition ints_upto (hi : Z) : gp := random_ints (Z.min (- MAXS) (hi - MAXS)) hi.
+
 Definition random_floats (lo hi : Q) : gp :=
   let body := GReal lo hi (fun q => GYield (vfloat q) GStop) in
   GFun (GYield (vfloat lo) (GYield (vfloat hi) (GLoop body body))).
@@ -122,7 +126,7 @@ Definition fixed (vs : list val) : gp := emit_all vs GStop.
 Definition empties : list val := [VColl KList []; VColl KDict []; VColl KTuple []; VColl KStr []; VColl KSet []].
 Definition falsies : list val := [vbool false; vint 0; VColl KTuple []; VColl KStr []; VColl KDict []].
 Definition truthies : list val :=
-  [vbool true; vint 1; VColl KStr [VOther KStr 0 true]; VColl KSet [vint 1]; vfloat (314#100)%Q].
+  [vbool true; vint 1; VColl KStr [VOther KStr 0 true]; VColl KSet [vint 1]; vfloat (7070651414971679#2251799813685248)%Q].   (* the double 3.14 *)
 Definition non_empties : list val :=
   [VColl KList [vint 1]; VColl KSet [vint 1; vint 2; vint 3]; VColl KTuple [vint 1]; VColl KStr [VOther KStr 0 true]].
 
@@ -144,10 +148,10 @@ Fixpoint gen_true (fe : fenv) (W : world) (ck : kind) (p : pred) {struct p} : gp
       end
   | PEq v => let body := GYield (cv ck v) GStop in GFun (GLoop body body)
   | PFalse => GFun GStop
-  | PGe v => GFun (by_sort_true W ck p (offsets v 1 0 5 GStop) (random_floats v (dhi fe v)) (random_ints (zfloor v) MAXS))
-  | PGt v => GFun (by_sort_true W ck p (offsets v 1 1 5 GStop) (random_floats (nup fe v) (dhi fe (nup fe v))) (random_ints (zfloor v + 1) MAXS))
-  | PLe v => GFun (by_sort_true W ck p (offsets v (-1) 0 5 GStop) (random_floats (dlo fe v) v) (random_ints (- MAXS) (zfloor v)))
-  | PLt v => GFun (by_sort_true W ck p (offsets v (-1) 1 5 GStop) (random_floats (dlo fe (ndown fe v)) (ndown fe v)) (random_ints (- MAXS) (zfloor v - 1)))
+  | PGe v => GFun (by_sort_true W ck p (offsets v 1 0 5 GStop) (random_floats v (dhi fe v)) (ints_from (zfloor v)))
+  | PGt v => GFun (by_sort_true W ck p (offsets v 1 1 5 GStop) (random_floats (nup fe v) (dhi fe (nup fe v))) (ints_from (zfloor v + 1)))
+  | PLe v => GFun (by_sort_true W ck p (offsets v (-1) 0 5 GStop) (random_floats (dlo fe v) v) (ints_upto (zfloor v)))
+  | PLt v => GFun (by_sort_true W ck p (offsets v (-1) 1 5 GStop) (random_floats (dlo fe (ndown fe v)) (ndown fe v)) (ints_upto (zfloor v - 1)))
   | PIn s => GFun (fixed (map (cv ck) s))
   | PIsEmpty => GFun (fixed empties)
   | PNe v => GFun (GYield (vbool (Qeq_bool v 0)) GStop)
@@ -214,8 +218,8 @@ Fixpoint gen_false (fe : fenv) (W : world) (ck : kind) (p : pred) {struct p} : g
   | PTrue => GFun GStop
   | PEq v => generate_anys W (PNot p)
   | PFalse => random_anys
-  | PGe v => GFun (by_sort_false W ck p (offsets v (-1) 1 5 GStop) (random_floats (dlo fe (ndown fe v)) (ndown fe v)) (random_ints (- MAXS) (zfloor v - 1)))
-  | PGt v => GFun (by_sort_false W ck p (offsets v (-1) 0 5 GStop) (random_floats (dlo fe v) v) (random_ints (- MAXS) (zfloor v)))
+  | PGe v => GFun (by_sort_false W ck p (offsets v (-1) 1 5 GStop) (random_floats (dlo fe (ndown fe v)) (ndown fe v)) (ints_upto (zfloor v - 1)))
+  | PGt v => GFun (by_sort_false W ck p (offsets v (-1) 0 5 GStop) (random_floats (dlo fe v) v) (ints_upto (zfloor v)))
   | PIsFalsy => generate_anys W PIsTruthy
   | PIn s =>
       match s with
